@@ -52,8 +52,22 @@ var c09Values = []string{
 	"NOERROR;PTR;host.e.org.", "", "NOERROR;;",
 }
 
+// c09NoHandlerValues are NOERROR rewrites of record types that have NO value
+// parser in dnsRewriteRRHandlers: the parser keeps the type and leaves the value
+// nil (RCode 0, RRType t, Value nil).  As exceptions they disable only the
+// rewrites of the same type (all such values are nil, hence equal); they are NOT
+// the empty "disable everything" value.
+var c09NoHandlerValues = []string{
+	"NOERROR;NS;ns1.e.org", "NOERROR;NS;ns2.e.org", "NOERROR;ns;", "NOERROR;SOA;ns.e.org. root.e.org. 1 2 3 4 5",
+	"NOERROR;CAA;0 issue ca.e.org", "NOERROR;NAPTR;", "NOERROR;DS;x", "NOERROR;DNAME;new.e.org", "NOERROR;ANY;",
+	"NOERROR;SPF;hello", "NOERROR;TLSA;", "NOERROR;LOC;1.2.3.4", "noerror;Null;x",
+}
+
 func c09RuleText(r *rng) string {
 	v := pick(r, c09Values)
+	if r.chance(1, 6) {
+		v = pick(r, c09NoHandlerValues)
+	}
 	t := "||e.org^$dnsrewrite"
 	if v != "" || r.chance(1, 2) {
 		t += "=" + v
@@ -143,6 +157,14 @@ func genC09Rewrites(r *rng, n int, w *bufio.Writer) {
 	c09Emit(w, parse([]string{"||e.org^$dnsrewrite=1.1.1.1", "@@||e.org^$dnsrewrite=1.1.1.1", "@@||e.org^$dnsrewrite=2.2.2.2", "||e.org^$dnsrewrite=2.2.2.2"}), "direct")
 	c09Emit(w, parse([]string{"||e.org^$dnsrewrite=NOERROR;MX;10 mail.e.org", "@@||e.org^$dnsrewrite=NOERROR;MX;10 mail.e.org"}), "direct")
 	c09Emit(w, nil, "direct")
+	// an exception whose value is a record type WITHOUT a value parser (type set, value nil) is an exception with a
+	// value: it disables the rewrites of that type only
+	c09Emit(w, parse([]string{"||e.org^$dnsrewrite=1.2.3.4", "||e.org^$dnsrewrite=NOERROR;TXT;hello", "||e.org^$dnsrewrite=new.e.org", "||e.org^$dnsrewrite=REFUSED",
+		"||e.org^$dnsrewrite=NOERROR;NS;ns1.e.org", "||e.org^$dnsrewrite=1.2.3.5,important", "@@||e.org^$dnsrewrite=NOERROR;NS;ns2.e.org"}), "direct")
+	c09Emit(w, parse([]string{"@@||e.org^$dnsrewrite=NOERROR;CAA;0 issue ca.e.org,important", "||e.org^$dnsrewrite=1.2.3.4", "||e.org^$dnsrewrite=NOERROR;CAA;x,important",
+		"||e.org^$dnsrewrite=NOERROR;;", "||e.org^$dnsrewrite=1.2.3.5,important"}), "direct")
+	nrsNS, _ := c09Engine([]string{"||e.org^$dnsrewrite=1.2.3.4", "@@||e.org^$dnsrewrite=NOERROR;SOA;x", "||e.org^$dnsrewrite=NXDOMAIN", "||e.org^$dnsrewrite=NOERROR;SOA;y"})
+	c09Emit(w, nrsNS, "DNSEngine")
 	for i := 0; i < n; i++ {
 		k := r.n(7)
 		if r.chance(1, 5) {
